@@ -38,10 +38,26 @@ CHECKS = {
    text="every accepted two-counterpart input of the feature-interaction corpus: for each counterpart X the impls whose trait argument is X must be token-identical to the complete expansion of the projected input (all instructions for / dedicated to the other counterpart deleted) - the implementation is its own reference",
    note="impls are attributed to a counterpart by the trait's type argument; bounded: <= 3 members, 2 counterparts, deviation bound 4 (quick) / 6 (thorough)",
    technique=TECH_X + " with a metamorphic (projection) oracle"),
+ "C07": dict(level="model_checking", design="DESIGN.md §8 C07",
+   text="the struct / enum / flattening case spaces with all flavours requested, compiled through the real derive and executed with a purely differential oracle: by-ref == owned, Try == Ok(infallible) against a layout-identical twin, into_existing == into on every mapped leaf and untouched elsewhere; plus a `?`-raising space (every subset of raising members x every subset of trigger values): the fallible flavours return the error of the first raising member",
+   note="values compared through normalised Debug text; positional-index disagreements between into and into_existing already present on the pinned tree are listed as known findings",
+   technique=TECH_X + " with differential oracles between conversion flavours, through rustc and execution"),
+ "C08": dict(level="model_checking", design="DESIGN.md §8 C08",
+   text="part A: 24 instruction names x 3 hosts x every subset and order of {attribute, impl_attribute, inner_attribute, vars} x terminal param: each attribute sits on the fn / impl / fn-body head of exactly the impls the instruction produces and nowhere else; part B through rustc + execution: vars evaluated once, in order, before the result and visible to member expressions (logging helper), ..update supplies exactly the unprovided leaves, return replaces the body, for every direction group and with a bare #[parent] member",
+   note="placement read through a real parser; behaviour observed at run time only (layout of the body is free)",
+   technique=TECH_X + " + structural placement oracle and run-time behaviour oracle"),
+ "C09": dict(level="model_checking", design="DESIGN.md §8 C09",
+   text="every enum of 1-3 variants with arms from {literal, range pattern, or-pattern, wildcard, README catch-all, ghost variant} over boundary points, distinct and overlapping, every order, counterparts u8 / i8 / &'static str alias, owned and by-ref kinds, infallible and fallible: compiled through the real derive and executed over the WHOLE primitive domain against a first-match-in-declaration-order model; Into yields the literal; round trip where literals are distinct",
+   note="all 256 values of u8/i8 are evaluated for every enum; strings over a closed set plus one outside value",
+   technique=TECH_X + " + reference-model conformance over the complete value domain, through rustc and execution"),
  "C10": dict(level="model_checking", design="DESIGN.md §8 C10",
    text="every token tree over an 18-atom alphabet (incl. literals containing ~ and @, lifetimes, joint punctuation, closures, macros, turbofish) with (), [], {}, None-delimited groups up to the stated length/depth in each of 24 accepting positions: an independent substitution over the flattened atom list must occur as a contiguous subsequence of every impl the instruction applies to, and the marker must be absent from the impls it does not apply to",
    note="`~` only where the README allows it; what `~` stands for per position transcribed from README 'Inline expressions' and the statement; in-process expansion with real proc_macro2 groups",
    technique=TECH_X + " + comparison with an independent substitution model"),
+ "C11": dict(level="exploration", design="DESIGN.md §8 C11",
+   text="every generic parameter list built from lifetimes, type parameters with/without bounds and defaults, const parameters (<= 4, every legal order) x own where clause x counterpart path forms (mirror, concrete arguments, counterpart-only lifetime with and without own parameters, result borrowing from the reference) x #[where_clause] none/default/dedicated x all 12 kinds: rustc must accept every generated impl and a test body borrows stack-local data through every by-reference conversion",
+   note="oracle = rustc's type and borrow checker on the real macro output",
+   technique=TECH_X + " with the compiler's type checker as oracle"),
  "C12": dict(level="exploration", design="DESIGN.md §8 C12",
    text="every input of the host corpus x every non-empty subset (bounded) of its shortcut occurrences rewritten to the documented basic instructions: multiset of generated impl items and accept/reject decision must be identical",
    note="token-level comparison; rewrite-deviation bound 2 (quick) / 3 (thorough) on top of the corpus bound",
